@@ -124,7 +124,7 @@ def _pick_float(r, k):
     if x < 0.9:
         return r.choice((1e15, -1e15, 2.0 ** 53, 9.2e18, -9.2e18, float(INT63)))
     if r.random() < k.p_beyond:
-        return r.choice((1e19, -1e19, 1.5e19, -3e19, 1e20))
+        return r.choice((1e19, -1e19, 1.5e19, -3e19, 1e20, 1e300, -1e300, 1e308, -1e308, 1.7e308, 5e-324, 2.5e-310))
     return r.uniform(-100, 100)
 
 
@@ -143,13 +143,18 @@ def _gen_float(r, k, depth):
         order.append("value")
     rest = []
     mag = max(abs(w), 1e-3)
-    deltas = (0.0, 0.0, 0.05, 0.3, 0.45, 1.0, 7.25, mag * 0.1, mag * 3, 1e19 if r.random() < k.p_beyond else 2.0)
+    deltas = (0.0, 0.0, 0.05, 0.3, 0.45, 1.0, 7.25, mag * 0.1, mag * 3 if mag < 1e300 else mag * 0.5,
+              1e19 if r.random() < k.p_beyond else 2.0, 1e308 if r.random() < k.p_beyond else 0.5)
     if r.random() < k.p_constraint:
-        s["min"] = enc(float(w - r.choice(deltas)))
-        rest.append("min")
+        lo = float(w - r.choice(deltas))
+        if lo == lo and abs(lo) != float("inf"):          # bounds stay finite
+            s["min"] = enc(lo)
+            rest.append("min")
     if r.random() < k.p_constraint:
-        s["max"] = enc(float(w + r.choice(deltas)))
-        rest.append("max")
+        hi = float(w + r.choice(deltas))
+        if hi == hi and abs(hi) != float("inf"):
+            s["max"] = enc(hi)
+            rest.append("max")
     if prec is not None:
         s["precision"] = prec
         rest.append("precision")
@@ -246,6 +251,8 @@ def _gen_str_regex(r, k):
             re.compile(pat)
         except Exception:
             continue
+        if G.rep_nesting(ast) > 1:
+            continue      # d42's own validator uses re.search: nested quantifiers there mean ReDoS, C09 owns them
         if G.has_unsupported(ast):
             # only where a raising fake() is part of the history under test (C07, C17)
             return {"t": "str", "regex": {"pattern": pat, "ast": ast}, "order": ["regex"]}, "x"
@@ -256,6 +263,10 @@ def _gen_str_regex(r, k):
         if r.random() < k.p_value * 0.5:
             s["value"] = w
             s["order"] = ["value", "regex"]
+        elif r.random() < 0.05:
+            # the one length form the DSL lets through in front of .regex(): an upper bound
+            s["len"] = ["max", len(w) + r.choice((0, 1, 5))]
+            s["order"] = ["len", "regex"]
         return s, w
     return {"t": "str", "order": []}, "x"
 
@@ -829,8 +840,14 @@ def feat(schema):
                 for b in ("min", "max"):
                     if has(b):
                         v = p.get(b)
-                        if round(round(v * sc) / sc, p.get("precision")) != v:
+                        if abs(v * sc) != float("inf") and round(round(v * sc) / sc, p.get("precision")) != v:
                             f.add(b + "_off_grid")
+            if has("min") and has("max") and (p.get("max") - p.get("min")) == float("inf"):
+                f.add("span_overflows")
+            if has("precision"):
+                for b in ("min", "max", "value"):
+                    if has(b) and isinstance(p.get(b), float) and abs(p.get(b) * 10 ** p.get("precision")) == float("inf"):
+                        f.add("bound_times_scale_overflows")
             v = p.get("value")
             if has("value") and isinstance(v, float) and (v != v):
                 f.add("value_nan")
